@@ -42,8 +42,22 @@ Record rule := Rule { ru_role : rrole; ru_count : Z; ru_cons : list lcons; ru_la
 Record rulefit := RuleFit { rf_rule : rule; rf_peers : list peer; rf_loose : list peer }.
 Record fit := Fit { fit_rules : list rulefit; fit_orphans : list peer }.
 
+(* what the merge checker sees of a neighbour (AllowMerge, hot flag and - under placement rules - IsRegionReplicated are read
+   back from the real code) and of the region itself *)
+Record nbr := Nbr { n_peers : list peer; n_down : Z; n_pending : Z; n_allow : bool; n_hot : bool; n_replicated : bool; n_size : Z }.
+Record menv := MEnv {
+  me_on : bool;            (* the merge checker is consulted and active: merge limit not reached, not recently started / split *)
+  me_size : Z;             (* approximate size of the region *)
+  me_small : bool;         (* size <= max-merge-region-size and keys <= max-merge-region-keys *)
+  me_hot : bool;
+  me_one_way : bool;
+  me_split_keys : bool;    (* RuleManager.GetSplitKeys(start, end) of the region is not empty *)
+  me_prev : option nbr;
+  me_next : option nbr
+}.
+
 Inductive entry := EReplica | ERule | EController.   (* ReplicaChecker.Check / RuleChecker.Check / CheckerController.CheckRegion *)
-Record input := Input { i_cfg : config; i_stores : list store; i_region : region; i_fit : fit; i_entry : entry }.
+Record input := Input { i_cfg : config; i_stores : list store; i_region : region; i_fit : fit; i_entry : entry; i_menv : menv }.
 
 (* ---------- label constraints (placement/label_constraint.go) ---------- *)
 (* key ids: the driver's table gives "specialUse" the id 50 and exclusive keys ("engine", "exclusive", "$...") ids >= 100 *)
@@ -185,13 +199,13 @@ Definition replace_feasible (inp : input) (old new : Z) (new_learner : bool) : b
 Inductive stage :=
 | StDown | StOffline | StExtraDown | StExtraOffline | StMakeUp | StExtra | StLocation         (* replica checker *)
 | StOrphan | StRuleAdd | StRuleDown | StRuleOffline | StRuleRole | StRuleLocation | StSplit   (* rule checker *)
-| StJoint | StLearner                                                                         (* joint-state checker, learner checker *)
+| StJoint | StLearner | StMerge                                                               (* joint-state, learner, merge checker *)
 | StOther.
 Definition stage_idx (s : stage) : Z :=
   match s with
   | StDown => 0 | StOffline => 1 | StExtraDown => 2 | StExtraOffline => 3 | StMakeUp => 4 | StExtra => 5 | StLocation => 6
   | StOrphan => 7 | StRuleAdd => 8 | StRuleDown => 9 | StRuleOffline => 10 | StRuleRole => 11 | StRuleLocation => 12
-  | StSplit => 13 | StOther => 14 | StJoint => 15 | StLearner => 16
+  | StSplit => 13 | StOther => 14 | StJoint => 15 | StLearner => 16 | StMerge => 17
   end.
 Definition stage_eqb (a b : stage) : bool := stage_idx a =? stage_idx b.
 
@@ -453,7 +467,8 @@ Definition fix_orphan (inp : input) : list res :=
 
 Definition rule_check (inp : input) : list res :=
   match fit_rules (i_fit inp) with
-  | [] => [Some (StSplit, ANoChange); None]           (* fixRange *)
+  | [] => (* fixRange: no rule covers the whole region; split at the rule boundaries inside it, if any *)
+          if me_split_keys (i_menv inp) && negb (in_joint (peers (i_region inp))) then [Some (StSplit, ANoChange)] else [None]
   | rfs => cascade (fix_orphan inp :: map (fix_rule_peer inp) rfs)
   end.
 
@@ -475,9 +490,62 @@ Definition learner_stage (inp : input) : list res :=
   | [] => [None]
   end.
 
+(* ---------- the merge checker (safety side) ---------- *)
+(* opt.IsRegionHealthy: no down and no pending peer; without placement rules no learner either *)
+Definition healthy_peers (c : config) (ps : list peer) (ndown npend : Z) : bool :=
+  (rules_enabled c || match filter is_learner ps with [] => true | _ => false end) && (ndown =? 0) && (npend =? 0).
+Definition region_healthy (inp : input) : bool :=
+  let r := i_region inp in
+  healthy_peers (i_cfg inp) (peers r) (Z.of_nat (List.length (down r))) (Z.of_nat (List.length (pending r))).
+(* opt.IsRegionReplicated *)
+Definition region_replicated (inp : input) : bool :=
+  let r := i_region inp in
+  if rules_enabled (i_cfg inp) then
+    match fit_rules (i_fit inp) with [] => false | rfs => forallb rf_satisfied rfs end
+    && match fit_orphans (i_fit inp) with [] => true | _ => false end
+  else match filter is_learner (peers r) with [] => true | _ => false end && (peer_count r =? max_replicas (i_cfg inp)).
+(* MergeChecker.checkTarget *)
+Definition merge_target_ok (inp : input) (n : nbr) : bool :=
+  n_allow n && negb (n_hot n) && healthy_peers (i_cfg inp) (n_peers n) (n_down n) (n_pending n) && n_replicated n.
+Definition merge_target (inp : input) : option nbr :=
+  let m := i_menv inp in
+  let t1 := match me_next m with Some n => if merge_target_ok inp n then Some n else None | None => None end in
+  match me_prev m with
+  | Some p =>
+      if negb (me_one_way m) && merge_target_ok inp p then
+        match t1, me_next m with
+        | Some _, Some n => if n_size p <? n_size n then Some p else t1
+        | _, _ => Some p
+        end
+      else t1
+  | None => t1
+  end.
+(* isRegionMatch: same stores with the same kind of peer; then no peer has to be moved before the merge *)
+Definition region_match (a b : list peer) : bool :=
+  Nat.eqb (List.length a) (List.length b)
+  && forallb (fun p => match peer_on b (p_store p) with Some q => Bool.eqb (is_learner p) (is_learner q) | None => false end) a.
+Definition max_target_region_size : Z := 500.
+
+Definition merge_ready (inp : input) : bool :=
+  let m := i_menv inp in
+  me_on m && negb (me_size m =? 0) && me_small m && region_healthy inp && region_replicated inp && negb (me_hot m).
+
+Definition merge_stage (inp : input) : list res :=
+  if merge_ready inp then
+    match merge_target inp with
+    | Some t =>
+        if max_target_region_size <? n_size t then [None]
+        else if in_joint (peers (i_region inp)) || in_joint (n_peers t) then [None]
+        else if region_match (peers (i_region inp)) (n_peers t) then [Some (StMerge, AAny)]
+        else [Some (StMerge, AAny); None]       (* the peers are moved onto the target's stores first: the builder may refuse *)
+    | None => [None]
+    end
+  else [None].
+
 Definition controller_check (inp : input) : list res :=
   then_ (joint_stage inp)
-        (if rules_enabled (i_cfg inp) then rule_check inp else then_ (learner_stage inp) (replica_check inp)).
+        (then_ (if rules_enabled (i_cfg inp) then rule_check inp else then_ (learner_stage inp) (replica_check inp))
+               (merge_stage inp)).
 
 Definition model_check (inp : input) : list res :=
   match i_entry inp with EReplica => replica_check inp | ERule => rule_check inp | EController => controller_check inp end.
@@ -533,12 +601,11 @@ Definition plan_of (joint : bool) (r : region) (o : aop) (id : Z) : option (list
             let pr := if lrn then [] else [(new, id)] in
             let de := if is_learner po then [] else [(old, p_id po)] in
             Some [AddLearnerS new id; EnterJointS pr de; LeaveJointS pr de; RemovePeerS old]
-          else if Bool.eqb (is_learner po) lrn then
-            (* planReplace: "add voter + remove voter OR add learner + remove learner" *)
-            Some ([AddLearnerS new id] ++ (if lrn then [] else [PromoteLearnerS new id]) ++ [RemovePeerS old])%list
           else
-            (* no replace plan pairs a learner with a voter: peerPlan falls through to planRemovePeer, then planAddPeer *)
-            Some ([RemovePeerS old; AddLearnerS new id] ++ (if lrn then [] else [PromoteLearnerS new id]))%list
+            (* planReplace pairs the single pending add with the single pending remove whatever their kinds are
+               (since the fix "adds the replacement peer before it removes the replaced one also when their kinds
+               differ"): add first *)
+            Some ([AddLearnerS new id] ++ (if lrn then [] else [PromoteLearnerS new id]) ++ [RemovePeerS old])%list
       end
   | _ => None
   end.
@@ -579,6 +646,7 @@ Definition check_case (c : case) : verdict :=
           else
             let o := aop_of (start_state (i_region inp)) fin in
             if negb (existsb (res_eqb (Some (io_stage io, o))) allowed) then VBad "operator not admitted by the model"
+            else if stage_eqb (io_stage io) StMerge || stage_eqb (io_stage io) StJoint then VOk   (* any steps *)
             else
               match o with
               | AAdd _ _ | ARemove _ | AReplace _ _ _ =>
@@ -671,6 +739,8 @@ Definition monitor (c : case) : option string :=
   | None => if repair_required inp then Some "C10:no-repair-although-target-exists" else None
   | Some io =>
       let s0 := start_state (i_region inp) in
+      if stage_eqb (io_stage io) StMerge then None   (* the statement speaks of the replica / rule checker's operators *)
+      else
       match run_steps s0 (io_steps io) with
       | None => Some "C10:unsafe-step"          (* e.g. a peer added on a store that already holds one *)
       | Some tr =>
